@@ -91,6 +91,50 @@ let show_frame (f : frame) : ostring =
 let show_result (show : 'a -> ostring) (r : 'a result) : ostring =
   match r with Ok a -> "Ok " ^ show a | Exn e -> "Exn " ^ exn_name e
 
+(* ---------- the crypto oracle: every primitive is asked over the pipe ---------- *)
+let exn_of_name (n : ostring) : exn = match n with
+  | "IndexError" -> IndexError | "KeyError" -> KeyError | "AttributeError" -> AttributeError | "UnboundLocalError" -> UnboundLocal
+  | "ValueError" -> ValueError | "TypeError" -> TypeError | "OverflowError" -> OverflowError | "InvalidTag" -> InvalidTag
+  | "ZeroDivisionError" -> ZeroDivision | _ -> ValueError
+let query (parts : ostring list) : ostring =
+  print_string ("Q " ^ String.concat " " parts ^ "\n"); flush stdout; String.trim (input_line stdin)
+let q_total parts : z list = bytes_of_hex (query parts)
+let q_result parts : z list result =
+  let a = query parts in
+  if String.length a > 0 && a.[0] = '!' then Exn (exn_of_name (String.sub a 1 (String.length a - 1))) else Ok (bytes_of_hex a)
+let hb = hex_of_bytes
+let pipe_crypto : crypto = {
+  c_hash = (fun h m -> q_total ["hash"; hash_name h; hb m]);
+  c_hmac = (fun h k m -> q_total ["hmac"; hash_name h; hb k; hb m]);
+  c_hkdf_extract = (fun h s i -> q_total ["hkdf_extract"; hash_name h; hb s; hb i]);
+  c_hkdf_expand = (fun h prk info n -> q_result ["hkdf_expand"; hash_name h; hb prk; hb info; hex_of_z n]);
+  c_aead_dec = (fun a t k n ct aad -> q_result ["aead_dec"; alg_name a; hex_of_z t; hb k; hb n; hb ct; hb aad]);
+  c_aead_enc = (fun a t k n pt aad -> q_result ["aead_enc"; alg_name a; hex_of_z t; hb k; hb n; hb pt; hb aad]);
+  c_cbc_dec = (fun a k iv ct -> q_result ["cbc_dec"; alg_name a; hb k; hb iv; hb ct]);
+  c_cbc_enc = (fun a k iv pt -> q_result ["cbc_enc"; alg_name a; hb k; hb iv; hb pt]);
+  c_rc4 = (fun k off d -> q_result ["rc4"; hb k; hex_of_z off; hb d]);
+  c_ecb_enc = (fun k b -> q_result ["ecb_enc"; hb k; hb b]);
+  c_chacha_mask = (fun k smp -> q_result ["chacha_mask"; hb k; hb smp]) }
+
+let label_of (s : ostring) : label = match s with
+  | "CLIENT_RANDOM" -> LClientRandom | "RSA" -> LRsa | "CLIENT_EARLY_TRAFFIC_SECRET" -> LClientEarly
+  | "CLIENT_HANDSHAKE_TRAFFIC_SECRET" -> LClientHs | "SERVER_HANDSHAKE_TRAFFIC_SECRET" -> LServerHs
+  | "CLIENT_TRAFFIC_SECRET_0" -> LClientApp | "SERVER_TRAFFIC_SECRET_0" -> LServerApp
+  | "SERVER_EARLY_TRAFFIC_SECRET" -> LServerEarly | _ -> LOther
+(* secrets: "label:randomhex:valuehex|!" joined by ',' ; "-" = none *)
+let secrets_of (s : ostring) : secret list =
+  if s = "-" then [] else List.map (fun e -> match String.split_on_char ':' e with
+    | [l; r; v] -> { s_label = label_of l; s_random = bytes_of_hex r; s_value = (if v = "!" then None else Some (bytes_of_hex v)) }
+    | _ -> failwith "secret") (String.split_on_char ',' s)
+let version_of (s : ostring) : tls_version = match s with
+  | "SSL30" -> SSL30 | "TLS10" -> TLS10 | "TLS11" -> TLS11 | "TLS12" -> TLS12 | "TLS13" -> TLS13 | _ -> failwith "version"
+let hash_of (s : ostring) : hash_alg = match s with "SHA256" -> SHA256 | "SHA384" -> SHA384 | "SHA1" -> SHA1 | "MD5" -> MD5 | _ -> failwith "hash"
+let qver_of (s : ostring) : quic_version = match s with "V1" -> QV1 | "V2" -> QV2 | _ -> QUnknown
+let ob = function Some b -> hex_of_bytes_strict b | None -> "None"
+let show_keys12 (k : keys12) = String.concat " " (List.map hex_of_bytes_strict [k.client_mac; k.server_mac; k.client_key; k.server_key; k.client_iv; k.server_iv])
+let show_keys13 (k : keys13) = String.concat " " (List.map ob [k.client_hs_key; k.server_hs_key; k.client_app_key; k.server_app_key; k.client_hs_iv; k.server_hs_iv; k.client_app_iv; k.server_app_iv])
+let show_tk = function Some t -> String.concat "/" (List.map hex_of_bytes_strict [t.t_key; t.t_iv; t.t_hp]) | None -> "None"
+
 (* ---------- dispatch ---------- *)
 let handle (cmd : ostring) (args : ostring list) : ostring =
   match cmd, args with
@@ -110,6 +154,25 @@ let handle (cmd : ostring) (args : ostring list) : ostring =
   | "cksum", [off; v6; src; dst; proto; sg; fld] ->
       show_result string_of_bool (x_cksum (z_of_hex off) (v6 = "1") (bytes_of_hex src) (bytes_of_hex dst) (z_of_hex proto) (bytes_of_hex sg) (z_of_hex fld))
   | "occ", [b] -> show_result hex_of_bytes_strict (x_occ (bytes_of_hex b))
+  | "dsk", [v; code; secs; cr; sr] ->
+      (match x_suite (z_of_hex code) with
+       | None -> "NoSuite"
+       | Some cs -> show_result (function K12 k -> "K12 " ^ show_keys12 k | K13 k -> "K13 " ^ show_keys13 k)
+                      (x_derive_session_keys pipe_crypto (version_of v) cs (secrets_of secs) (bytes_of_hex cr) (bytes_of_hex sr)))
+  | "qik", [cid; v; chacha] ->
+      show_result (function None -> "None" | Some k -> String.concat " " (List.map hex_of_bytes_strict [k.ci_key; k.ci_iv; k.ci_hp; k.si_key; k.si_iv; k.si_hp]))
+        (x_dev_initial_keys pipe_crypto (bytes_of_hex cid) (qver_of v) (chacha = "1"))
+  | "qqk", [kl; secs; h; v] ->
+      show_result (fun k -> String.concat " " (List.map show_tk [k.q_chs; k.q_shs; k.q_capp; k.q_sapp; k.q_cearly; k.q_searly]))
+        (x_dev_quic_keys pipe_crypto (z_of_hex kl) (secrets_of secs) (hash_of h) (qver_of v))
+  | "ku", [sk; siv; ck; civ; ssec; csec; h; kl] ->
+      show_result (fun g -> String.concat " " (List.map hex_of_bytes_strict [g.g_skey; g.g_siv; g.g_ckey; g.g_civ; g.g_ssec; g.g_csec]))
+        (x_key_update pipe_crypto { g_skey = bytes_of_hex sk; g_siv = bytes_of_hex siv; g_ckey = bytes_of_hex ck; g_civ = bytes_of_hex civ;
+                                    g_ssec = bytes_of_hex ssec; g_csec = bytes_of_hex csec } (hash_of h) (z_of_hex kl))
+  | "prf30", [sec; cr; sr; n; nk] -> show_result hex_of_bytes_strict (x_prf_ssl_30 pipe_crypto (bytes_of_hex sec) (bytes_of_hex cr) (bytes_of_hex sr) (z_of_hex n) (nk = "1"))
+  | "prf10", [sec; cr; sr; lbl; n; nk] -> show_result hex_of_bytes_strict (x_prf_tls_10_11 pipe_crypto (bytes_of_hex sec) (bytes_of_hex cr) (bytes_of_hex sr) (bytes_of_hex lbl) (z_of_hex n) (nk = "1"))
+  | "prf12", [sec; cr; sr; lbl; n; h] -> show_result hex_of_bytes_strict (x_prf_tls_12 pipe_crypto (bytes_of_hex sec) (bytes_of_hex cr) (bytes_of_hex sr) (bytes_of_hex lbl) (z_of_hex n) (hash_of h))
+  | "makeinfo", [l; n] -> show_result hex_of_bytes_strict (x_make_info (bytes_of_hex l) (z_of_hex n))
   | "ping", _ -> "pong"
   | _ -> "ERR unknown command " ^ cmd
 
